@@ -118,6 +118,20 @@ func (r *rewriter) expr(e ast.Expr) ast.Expr {
 				return &ast.CallExpr{Fun: &ast.IndexExpr{X: sel("vrt", "MakeChan"), Index: elem}, Args: []ast.Expr{n}}
 			}
 		}
+		if id, ok := x.Fun.(*ast.Ident); ok && (id.Name == "len" || id.Name == "cap") && len(x.Args) == 1 {
+			// len(ch) / cap(ch) of something declared with a channel type in this file (a name or a struct field)
+			isChan := false
+			if a, ok := x.Args[0].(*ast.Ident); ok && r.chans[a.Name] {
+				isChan = true
+			}
+			if a, ok := x.Args[0].(*ast.SelectorExpr); ok && r.chans[a.Sel.Name] {
+				isChan = true
+			}
+			if isChan {
+				r.counts["len-cap-chan"]++
+				return &ast.CallExpr{Fun: &ast.SelectorExpr{X: x.Args[0], Sel: ast.NewIdent(map[string]string{"len": "Len", "cap": "Cap"}[id.Name])}}
+			}
+		}
 		if id, ok := x.Fun.(*ast.Ident); ok && id.Name == "close" && len(x.Args) == 1 {
 			r.counts["close"]++
 			return &ast.CallExpr{Fun: &ast.SelectorExpr{X: x.Args[0], Sel: ast.NewIdent("Close")}}
@@ -182,9 +196,23 @@ func (r *rewriter) stmt(s ast.Stmt) ast.Stmt {
 				}
 			}
 		}
+	case *ast.DeferStmt:
+		// defer close(ch)  ->  defer ch.Close()   (the call of a defer statement is not an expression slot of its own)
+		if id, ok := x.Call.Fun.(*ast.Ident); ok && id.Name == "close" && len(x.Call.Args) == 1 {
+			r.counts["close"]++
+			r.usedVrt = true
+			x.Call = &ast.CallExpr{Fun: &ast.SelectorExpr{X: x.Call.Args[0], Sel: ast.NewIdent("Close")}}
+		}
 	case *ast.RangeStmt:
 		// for v := range ch  ->  for { v, ok := ch.RecvOk(); if !ok { break }; body }   (ch known to be a channel)
-		if id, ok := x.X.(*ast.Ident); ok && r.chans[id.Name] && x.Value == nil {
+		isChan := false
+		if id, ok := x.X.(*ast.Ident); ok && r.chans[id.Name] {
+			isChan = true
+		}
+		if se, ok := x.X.(*ast.SelectorExpr); ok && r.chans[se.Sel.Name] { // a struct field declared with a channel type in this file
+			isChan = true
+		}
+		if isChan && x.Value == nil {
 			r.tmp++
 			okName := fmt.Sprintf("vrtOk%d", r.tmp)
 			var key ast.Expr = ast.NewIdent("_")
